@@ -277,6 +277,12 @@ def rule_i5(ctx):
     if len(tests) != 1:
         raise Unrecognised("C13.I5", c, "continuation test not found")
     t = tests[0].test
+    # `if not a == b: B else: A` and `if a != b: B else: A` select the same child in the other branch
+    if isinstance(t, ast.UnaryOp) and isinstance(t.op, ast.Not) and isinstance(t.operand, ast.Compare) and tests[0].orelse:
+        t = t.operand
+    elif isinstance(t, ast.Compare) and len(t.ops) == 1 and isinstance(t.ops[0], ast.NotEq) and tests[0].orelse:
+        t = ast.Compare(left=t.left, ops=[ast.Eq()], comparators=t.comparators)
+        ast.copy_location(t, tests[0].test)
     by_index = isinstance(t, ast.Compare) and isinstance(t.ops[0], ast.Eq) and {src(t.left), src(t.comparators[0])} == {"alt_idx", "idx_of_next_nonterminal"} and src(lp.iter) == "enumerate(shortest_alt_for_path_nonterminal)"
     by_symbol = isinstance(t, ast.Compare) and isinstance(t.ops[0], ast.Eq) and "next_nonterminal" in {src(t.left), src(t.comparators[0])}
     if by_index:
